@@ -39,14 +39,14 @@ class World:
     pass
 
 
-def _spaces():
+def _spaces(udim=1):
     import torchphysics as tp
-    return tp.spaces.R1("t"), tp.spaces.R1("k"), tp.spaces.R1("f"), tp.spaces.R1("u")
+    return tp.spaces.R1("t"), tp.spaces.R1("k"), tp.spaces.R1("f"), (tp.spaces.R1("u") if udim == 1 else tp.spaces.R2("u"))
 
 
 def make_net(case, spec, idx):
     import torchphysics as tp
-    T, K, F, U = _spaces()
+    T, K, F, U = _spaces(int(case.get("udim", 1)))
     torch.manual_seed((int(case["init"]) + 7919 * idx) % (2 ** 31))
     dom = tp.domains.Interval(T, 0.0, 1.0)
     fspace = tp.spaces.FunctionSpace(dom, F)
@@ -54,7 +54,7 @@ def make_net(case, spec, idx):
     trunk = tp.models.FCTrunkNet(T, hidden=tuple(spec["thidden"]))
     branch = tp.models.FCBranchNet(fspace, discretization_sampler=tp.samplers.DataSampler({"t": disc_t}),
                                    hidden=tuple(spec["bhidden"]))
-    return tp.models.DeepONet(trunk, branch, U, output_neurons=int(spec["m"]))
+    return tp.models.DeepONet(trunk, branch, U, output_neurons=int(spec["m"]) * int(case.get("udim", 1)))
 
 
 def make_fset(case, spec):
@@ -91,6 +91,15 @@ def make_resid(cs):
 def make_cond(cs, net, fset, idx):
     import torchphysics as tp
     smp = make_sampler(cs["sampler"])
+    drawn = []
+    orig = smp.sample_points
+
+    def recording(*a, **k):
+        p = orig(*a, **k)
+        drawn.append(p.as_tensor.detach().clone().reshape(-1))
+        return p
+    smp.sample_points = recording      # the trunk points of every evaluation, for the direct oracle
+    smp._verif_drawn = drawn
     res = make_resid(cs)
     name = "don%d" % idx
     if cs.get("cls") == "single":
@@ -133,8 +142,8 @@ def direct_loss(case, cs, net, net_spec, net_idx, fspec, pts):
         du = torch.autograd.grad(u.sum(), x, create_graph=False)[0]
         res = du - c * fx
     if cs.get("cls") != "single":
-        # PIDeepONetCondition: the library's SquaredError sums over dim 1 of the (function, point, component) layout
-        return float(torch.mean(torch.sum(res.detach() ** 2, dim=1)))
+        # PIDeepONetCondition (documented): mean over functions and points of the squared residual summed over components
+        return float(torch.mean(torch.sum(res.detach() ** 2, dim=-1)))
     return float(torch.mean(res.detach() ** 2))
 
 
@@ -161,9 +170,6 @@ def run_c14_don(case):
 
             def evaluate(i, iteration, step):
                 cs = conds[i]
-                pts = None
-                if cs["sampler"]["kind"] == "data":
-                    pts = torch.tensor(cs["sampler"]["pts"], dtype=torch.float32)
                 res = []
                 for which, cond in (("shared", shared[i]), ("solo", solo[i].cond)):
                     sim.reseed(H(case["rng"], "op", step, i))
@@ -173,12 +179,8 @@ def run_c14_don(case):
                     except Exception as ex:
                         res.append(("raises", type(ex).__name__, innermost_site(ex.__traceback__), str(ex)[:120]))
                 la, lb = res
-                if pts is None and cs["sampler"]["kind"] == "grid":
-                    sim.paused += 1
-                    try:
-                        pts = shared[i].input_sampler.sample_points().as_tensor.detach().reshape(-1)
-                    finally:
-                        sim.paused -= 1
+                drawn = shared[i].input_sampler._verif_drawn
+                pts = drawn[-1] if drawn else None
                 stats["evals_judged"] = stats.get("evals_judged", 0) + 1
                 log.append(["eval", i, iteration, la if isinstance(la, float) else list(la[:2])])
                 role = "val" if iteration is None else "train"
@@ -234,5 +236,43 @@ def run_c14_don(case):
            "features": feats, "digest_extra": log}
     rec["nontrivial"] = stats.get("evals_judged", 0) > 0
     rec["key"] = "%s|%s" % (feats["cell"], "".join(op["op"][0] for op in case["history"]))
+    rec["outcome"] = log[:8]
+    return rec
+
+
+def run_c04_don(case):
+    """C04, DeepONet conditions: the loss of one physics-informed DeepONet condition against the documented
+    reduction recomputed outside the condition on exactly the trunk points its sampler produced."""
+    out, stats, log = [], {}, []
+    sim = SimRNG(case["rng"], fault=None)
+    cs = case["conds"][0]
+    with sim:
+        try:
+            net = make_net(case, case["nets"][0], 0)
+            fset = make_fset(case, case["fsets"][0])
+            cond = make_cond(cs, net, fset, 0)
+            for step in range(int(case.get("evals", 2))):
+                sim.reseed(H(case["rng"], "op", step))
+                sim.begin_op()
+                la = float(cond(device="cpu", iteration=step))
+                pts = cond.input_sampler._verif_drawn[-1]
+                want = direct_loss(case, cs, net, case["nets"][0], 0, case["fsets"][0], pts)
+                stats["evals_judged"] = stats.get("evals_judged", 0) + 1
+                log.append(["eval", step, la])
+                if not math.isclose(la, want, rel_tol=1e-4, abs_tol=1e-7):
+                    out.append(viol("C04", "reduce", "deeponet-loss-is-not-the-documented-mean", cs.get("cls", "pi"),
+                                    got=la, want=want, functions=len(case["fsets"][0]["ks"]), points=int(len(pts)),
+                                    udim=int(case.get("udim", 1)), eval=step))
+                    break
+                perturb(net, step + 1)
+        except Exception as ex:
+            out.append(viol("C04", "run", "raises:" + type(ex).__name__, innermost_site(ex.__traceback__),
+                            msg=traceback.format_exc()[-400:]))
+    feats = {"cell": "deeponet|%s|%s|%s|u%d" % (cs.get("cls", "pi"), cs["resid"], cs["sampler"]["kind"], int(case.get("udim", 1))),
+             "faulty": False, "kind": "deeponet", "kinds": "deeponet", "static": None, "data_fns": 0}
+    rec = {"violations": out, "stats": stats, "sim": sim.summary(), "steps": int(case.get("evals", 2)), "rows": None,
+           "features": feats, "digest_extra": log}
+    rec["nontrivial"] = stats.get("evals_judged", 0) > 0
+    rec["key"] = "%s|F%d|N%s" % (feats["cell"], len(case["fsets"][0]["ks"]), cs["sampler"].get("n") or len(cs["sampler"].get("pts", [])))
     rec["outcome"] = log[:8]
     return rec
